@@ -32,7 +32,10 @@ LEVEL_TEXT = (
     "leaf-set lemma L1 and C03.slice_*), its steering tables stay equal to their definition "
     "(reductions_inv), every cached slicing is a genuine removal chain and avoids the forbidden set "
     "(cache_sound, never_forbidden), and what `best` returns is cached and meets every specified target on "
-    "the tree (best_meets_targets). The model is tied to /repo on every run by equality correspondence of "
+    "the tree (best_meets_targets); for a finder object that is re-used, after any history of search calls with "
+    "any per-call targets (Targets.orElse = _maybe_default) the same holds with the targets in force for the call "
+    "(session_cache_sound, session_sound), and for every entry of the list best(k=...) returns (bestK_sound). "
+    "The model is tied to /repo on every run by equality correspondence of "
     "the full ContractionCosts state along random removal chains and of whole searches replayed on the "
     "observed oracle answers.")
 LEVEL_NOTE = (
